@@ -1,20 +1,40 @@
 /* env_printf.c -- model of the small part of the C formatting library that String_Show / String_Look
  * and Int/Float show/look reach through String_Format_To / String_Format_From:
- *   output: literal text, %%, %c (int argument)
- *   input : literal text (must match), %c (one character, no white-space skipping), %n
+ *   output: literal text, %%, %c (int argument), %li / %ld (long argument), %i / %d (int argument: same text as the sign-extended long), %f (double argument)
+ *   input : literal text (must match), %c (one character, no white-space skipping), %n,
+ *           %li / %ld (long*), %i / %d (int*: four bytes stored), %lf (double*), %f (float*)
+ * The digits libc would produce for a number are FFI; they are replaced by an abstract injective text
+ * encoding of fixed width (a tag character followed by the 16 nibbles of the value's image, as letters),
+ * which satisfies by construction the contract "the reader returns the value the writer was given and
+ * consumes exactly the characters it wrote".  What stays decided is everything Cello does around it: which
+ * C value and which width it hands to the writer, which pointer and which width it hands to the reader
+ * (a %f reader stores four bytes through a float*), and the position bookkeeping through %n.
  * Any other directive reaching the model is an assertion failure (= outside what this model claims). */
 #include <stdarg.h>
 #include <stddef.h>
 #include "verif.h"
+#define VP_NUMW 17
+#define VP_PUT(c) do { if (s != NULL && (!limited || out + 1 < n)) s[out] = (c); out++; } while (0)
 static int vp_emit(char* s, size_t n, int limited, const char* fmt, va_list ap) {
   size_t out = 0;
   for (size_t i = 0; fmt[i] != 0; i++) {
     char ch = fmt[i];
     if (ch == '%') {
       i++;
+      int longs = 0; while (fmt[i] == 'l') { longs++; i++; }
+      if (fmt[i] == 'i' || fmt[i] == 'd' || fmt[i] == 'f') {
+        unsigned long long img = 0; char tag;
+        if (fmt[i] == 'f') { tag = 'F'; if (s != NULL) { union { double d; unsigned long long u; } cv; cv.d = va_arg(ap, double); img = cv.u; } }
+        else { V_ASSERT(longs <= 1, "MODEL-LIMIT: formatting model: integer directives are modelled for %i / %d / %li / %ld only"); tag = 'I';
+               if (s != NULL) { long v = (longs == 1) ? va_arg(ap, long) : (long)va_arg(ap, int); img = (unsigned long long)v; } }
+        VP_PUT(tag);
+        for (int k = 0; k < 16; k++) VP_PUT((char)('a' + ((img >> (4 * k)) & 15)));
+        continue;
+      }
+      V_ASSERT(longs == 0, "MODEL-LIMIT: formatting model: length modifier on an unmodelled directive");
       if (fmt[i] == '%') ch = '%';
-      else if (fmt[i] == 'c') ch = (char)va_arg(ap, int);
-      else { V_ASSERT(0, "formatting model: only literal text, %% and %c are modelled"); return -1; }
+      else if (fmt[i] == 'c') ch = (s != NULL) ? (char)va_arg(ap, int) : 'x';   /* sizing pass: every directive is one character, the argument is not consumed */
+      else { V_ASSERT(0, "MODEL-LIMIT: formatting model: only literal text, %% and %c are modelled"); return -1; }
     }
     if (s != NULL && (!limited || out + 1 < n)) s[out] = ch;
     out++;
@@ -29,10 +49,28 @@ int vsscanf(const char* str, const char* fmt, va_list ap) {
   for (size_t i = 0; fmt[i] != 0; i++) {
     if (fmt[i] == '%') {
       i++;
+      int longs = 0; while (fmt[i] == 'l') { longs++; i++; }
+      if (fmt[i] == 'i' || fmt[i] == 'd' || fmt[i] == 'f') {
+        char tag = (fmt[i] == 'f') ? 'F' : 'I';
+        if (str[pos] == 0) { eof_hit = 1; break; }
+        if (str[pos] != tag) break;
+        unsigned long long img = 0; int ok = 1;
+        for (int k = 0; k < 16; k++) { char c = str[pos + 1 + k]; if (c < 'a' || c > 'p') { ok = 0; break; } img |= ((unsigned long long)(c - 'a')) << (4 * k); }
+        if (!ok) break;
+        pos += VP_NUMW;
+        if (fmt[i] == 'f') { union { double d; unsigned long long u; } cv; cv.u = img; double d = cv.d;
+          if (longs == 1) { double* dst = va_arg(ap, double*); *dst = d; }
+          else { V_ASSERT(longs == 0, "MODEL-LIMIT: scanning model: %f / %lf only"); float* dst = va_arg(ap, float*); *dst = (float)d; } }
+        else { V_ASSERT(longs <= 1, "MODEL-LIMIT: scanning model: integer directives are modelled for %i / %d / %li / %ld only");
+               if (longs == 1) { long* dst = va_arg(ap, long*); *dst = (long)img; } else { int* dst = va_arg(ap, int*); *dst = (int)img; } }
+        assigned++;
+        continue;
+      }
+      V_ASSERT(longs == 0, "MODEL-LIMIT: scanning model: length modifier on an unmodelled directive");
       if (fmt[i] == 'c') { char* dst = va_arg(ap, char*); if (str[pos] == 0) { eof_hit = 1; break; } *dst = str[pos]; pos++; assigned++; }
       else if (fmt[i] == 'n') { int* dst = va_arg(ap, int*); *dst = (int)pos; }
       else if (fmt[i] == '%') { if (str[pos] != '%') break; pos++; }
-      else { V_ASSERT(0, "scanning model: only literal text, %c and %n are modelled"); return -1; }
+      else { V_ASSERT(0, "MODEL-LIMIT: scanning model: only literal text, %c and %n are modelled"); return -1; }
     } else {
       if (str[pos] == 0) { eof_hit = 1; break; }
       if (str[pos] != fmt[i]) break;
@@ -41,3 +79,7 @@ int vsscanf(const char* str, const char* fmt, va_list ap) {
   }
   return (assigned == 0 && eof_hit) ? -1 : assigned;
 }
+/* glibc's <stdio.h> redirects vsscanf to __isoc99_vsscanf */
+#ifndef V_NATIVE
+int __isoc99_vsscanf(const char* str, const char* fmt, va_list ap) { return vsscanf(str, fmt, ap); }
+#endif
